@@ -127,6 +127,17 @@ theorem allChildren_spec {t : T} (hf : Forest t) (i : Nat) :
   ⟨fun _ => mem_allChildren hf, allChildren_sorted hf i, nodup_of_sorted (allChildren_sorted hf i),
    allChildren_eq_filter hf i⟩
 
+/-- `all_children` is "the children and, recursively, theirs" — the least such set is the
+one of `allChildren_spec`. -/
+theorem allChildren_closure {t : T} (hf : Forest t) (i j : Nat) :
+    j ∈ allChildren t i ↔ ∃ c ∈ children t i, j = c ∨ j ∈ allChildren t c :=
+  mem_allChildren_closure hf
+
+/-- `all_parents` and `all_children` are converse relations. -/
+theorem allParents_allChildren_dual {t : T} (hf : Forest t) (i j : Nat) :
+    i ∈ allParents t j ↔ j ∈ allChildren t i := by
+  rw [mem_allParents hf, mem_allChildren hf]
+
 /-- `geneology` is the path from the root down to the line itself. -/
 theorem geneology_spec {t : T} (hf : Forest t) (i : Nat) :
     geneology t i = (ancestors t i).reverse ++ [i] ∧ (geneology t i).Pairwise (· < ·) := by
